@@ -58,6 +58,12 @@ CHECKS["C17"] = {
     "text": U + " of RedialPacketConn with 1-3 scripted carriers x failure scripts {none, read, write, both, late write} x dial end {error, block} x close instants (no error before Close/dial failure, at most one carrier active, every carrier closed, no goroutine of the package alive after Close, packets unmodified and in order despite buffer scribbling); QueuePacketConn: all operation sequences <=5(6) against a FIFO reference, overflow run, concurrent feeders/reader/writer/closer; ClientMap with its real sweeper on virtual time (retention until T-1ns, discarded and closed by 1.5T); clientMapInner with explicit clock: breadth-first to a fixpoint with heap/index invariants.",
     "design_ref": "§3 C17", "note": SCHED_NOTE,
 }
+CHECKS["C01"] = {
+    "script": "c01.py", "category": "model_checking",
+    "technique": "stateless model checking (DPOR + sleep sets, virtual time) of the real client dialContext closure + WebRTCPeer + encapsulationPacketConn + RedialPacketConn against the real server turbotunnelMode + QueuePacketConn, with scripted carrier faults and an ARQ stand-in for KCP",
+    "text": U + " of the composition for: no fault; every single fault {carrier cut before / inside / after a write, freeze} x direction x write index (token, ClientID, length prefix+payload writes) x {enough standby carriers, one too few} x replacement delay {0, 10 s}; pairs of faults in the thorough tier. Oracle: every packet handed up on either side is byte-identical to one the peer sent in this session and attributed to its ClientID; the application byte streams are exact prefixes (never missing, duplicated, reordered or foreign data); both directions complete whenever a working carrier exists after the last fault; the redialling conn never surfaces an error; nothing of the transport is left running after shutdown.",
+    "design_ref": "§3 C01", "note": SCHED_NOTE + " Tier 1: KCP+smux are replaced by a stop-and-wait ARQ driver, the proxy by a transparent relay; pion, real proxy processes and KCP/smux internals are not covered. The dialContext closure is the real one (captured from newSession by a build-time hook); WebRTCPeer's transport/pipe fields are retyped to interfaces by a build-time pre-pass.",
+}
 CHECKS["C05"] = {
     "script": "c05.py", "category": "model_checking",
     "technique": "stateless model checking of the real turbotunnelMode + QueuePacketConn + ClientMap + clientIDAddrMap under a controlled scheduler (DPOR + sleep sets, virtual time) with in-memory carriers and a KCP stand-in",
